@@ -210,6 +210,7 @@ func cmdCheck(args []string) int {
 		return 1
 	}
 
+	replayRepo = *repo
 	prog, err := loadAll(*repo, filepath.Join(*verif, "spec"), []string{"./..."})
 	if err != nil {
 		// the tree cannot be brought into the verifier at all (it does not type-check, or the schema / a
